@@ -387,35 +387,72 @@ def b_sphere(rng, tier):
         cr = (v1[1] * v2[2] - v1[2] * v2[1], v1[2] * v2[0] - v1[0] * v2[2], v1[0] * v2[1] - v1[1] * v2[0])
         return math.degrees(math.atan2(math.sqrt(dot(cr, cr)), dot(v1, v2)))
     for i, (lon, lat) in enumerate(dirs):
-        eps = rng.uniform(0, 30)
+        eps = rng.uniform(-90, 90) if i % 4 == 0 else rng.uniform(0, 30)      # "every obliquity": also far from the real one
         phi = rng.uniform(-90, 90)
         a, b = Angle(lon), Angle(lat)
         polar = abs(abs(lat) - 90.0) < 1e-3
-        tol = 1e-9 if not polar else 1e-6          # asin near 1 loses half the digits: reported separately
+        tol = 1e-9                                  # the property's figure for every direction, poles included
+        env, det = "", None
         try:
             l2, b2 = C.equatorial2ecliptical(a, b, Angle(eps))
             l3, b3 = C.ecliptical2equatorial(l2, b2, Angle(eps))
-            ok = sep(lon, lat, l3(), b3()) < tol and 0 <= l2() < 360 and -90 <= b2() <= 90 and 0 <= l3() < 360
             az, el = C.equatorial2horizontal(a, b, Angle(phi))
             h3, d3 = C.horizontal2equatorial(az, el, Angle(phi))
-            ok = ok and sep(lon, lat, h3(), d3()) < tol and -90 <= el() <= 90
             gl, gb = C.equatorial2galactic(a, b)
             r3, dd3 = C.galactic2equatorial(gl, gb)
-            ok = ok and sep(lon, lat, r3(), dd3()) < tol and 0 <= gl() < 360 and 0 <= r3() < 360
+            errs = (sep(lon, lat, l3(), b3()), sep(lon, lat, h3(), d3()), sep(lon, lat, r3(), dd3()))
+            ok = 0 <= l2() < 360 and -90 <= b2() <= 90 and 0 <= l3() < 360 and -90 <= el() <= 90 and 0 <= gl() < 360 and 0 <= r3() < 360
+            if not ok:
+                det, env = ("range of a returned angle", l2(), b2(), l3(), el(), gl(), r3()), "beyond-known-envelope"
+            elif max(errs) >= tol:
+                ok, det = False, ("round trip (ecliptical, horizontal, galactic) off by", errs, "latitudes", b2(), el(), gb())
+                # known finding: asin() of a value next to +-1 loses digits: when the direction is within 2e-3 degree of a pole of
+                # the starting or of the target frame the round trip is off by up to 2e-6 degree
+                near = max(abs(lat), abs(b2()), abs(el()), abs(gb())) > 90.0 - 2e-3
+                env = "inside-known-envelope" if (near and max(errs) < 3e-6) else "beyond-known-envelope"
             j = (i * 7919 + 13) % len(dirs)
             lo2, la2 = dirs[j]
             s0 = sep(lon, lat, lo2, la2)
-            if 1e-7 <= s0 <= 179.999:
-                s1 = C.angular_separation(a, b, Angle(lo2), Angle(la2))()
-                s2 = C.angular_separation(Angle(lo2), Angle(la2), a, b)()
+            if ok and 1e-7 <= s0 <= 179.999:
                 e1, f1 = C.equatorial2ecliptical(a, b, Angle(eps))
                 e2, f2 = C.equatorial2ecliptical(Angle(lo2), Angle(la2), Angle(eps))
-                tol_s = 1e-9                  # the property's figure over the whole range 1e-7 .. 179.999 degrees
-                ok = ok and abs(s1 - s0) < tol_s and abs(s1 - s2) < 1e-12 and abs(sep(e1(), f1(), e2(), f2()) - s0) < 1e-9
-            det = None
+                if abs(sep(e1(), f1(), e2(), f2()) - s0) >= 1e-9:
+                    near = max(abs(f1()), abs(f2())) > 90.0 - 2e-3
+                    ok, det = False, ("angle between two directions changed by the conversion", sep(e1(), f1(), e2(), f2()) - s0)
+                    env = "inside-known-envelope" if (near and abs(sep(e1(), f1(), e2(), f2()) - s0) < 3e-6) else "beyond-known-envelope"
         except Exception as ex:
-            ok, det = False, repr(ex)
-        yield ((lon, lat, round(eps, 6), round(phi, 6)), ok, det, not polar)
+            ok, det, env = False, repr(ex), "beyond-known-envelope"
+        yield ((lon, lat, round(eps, 6), round(phi, 6), env if not ok else ""), ok, det, not polar)
+    # directions next to the pole of the TARGET frame (zenith / nadir, ecliptic poles, galactic poles), from 1e-6 degree upwards
+    for i in range(60 if tier == "quick" else 3000):
+        dist = 10 ** rng.uniform(-6, -1)
+        pa = rng.uniform(0, 360)
+        which = i % 3
+        eps, phi = rng.uniform(0, 30), rng.uniform(-89, 89)
+        sgn = rng.choice((-1, 1))
+        ok, det, env = True, None, ""
+        try:
+            if which == 0:       # horizontal: a direction at `dist` from the zenith / nadir
+                hq, dq = C.horizontal2equatorial(Angle(pa), Angle(sgn * (90.0 - dist)), Angle(phi))
+                az, el = C.equatorial2horizontal(hq, dq, Angle(phi))
+                back = C.horizontal2equatorial(az, el, Angle(phi))
+                err, lt = sep(hq(), dq(), back[0](), back[1]()), el()
+            elif which == 1:     # ecliptical
+                rq, dq = C.ecliptical2equatorial(Angle(pa), Angle(sgn * (90.0 - dist)), Angle(eps))
+                l2, b2 = C.equatorial2ecliptical(rq, dq, Angle(eps))
+                back = C.ecliptical2equatorial(l2, b2, Angle(eps))
+                err, lt = sep(rq(), dq(), back[0](), back[1]()), b2()
+            else:                # galactic
+                rq, dq = C.galactic2equatorial(Angle(pa), Angle(sgn * (90.0 - dist)))
+                gl, gb = C.equatorial2galactic(rq, dq)
+                back = C.galactic2equatorial(gl, gb)
+                err, lt = sep(rq(), dq(), back[0](), back[1]()), gb()
+            if err >= 1e-9:
+                ok, det = False, ("round trip next to the pole of the target frame off by", err, "latitude there", lt)
+                env = "inside-known-envelope" if (abs(lt) > 90.0 - 0.2 and err < 3e-6) else "beyond-known-envelope"
+        except Exception as ex:
+            ok, det, env = False, repr(ex), "beyond-known-envelope"
+        yield (("target-pole", ("horizontal", "ecliptical", "galactic")[which], round(dist, 8), round(pa, 3), env if not ok else ""), ok, det)
     # separation and position angle over the whole stated range of separations, 1e-7 .. 179.999 degrees: partner directions at a
     # chosen distance and bearing from a seeded direction (built with the exact spherical triangle in extended precision-free form:
     # the oracle is the cross/dot product of the two unit vectors actually passed)
